@@ -20,9 +20,9 @@ import (
 func init() {
 	Register(&Check{
 		Spec: core.Spec{ID: "C26", Level: "exploration",
-			Rule:        "case = one engine with BloomFalsePositiveRate p in {0.3, 0.1, 0.01, 0.001, 1e-4} ingesting rows built to carry a chosen number of distinct tokens (1 .. 50 000 quick, .. 300 000 thorough, plus volume cases of 600 000 - 1 500 000 distinct tokens in one file (one in the quick tier, one in 40 thorough), flushed at once or merged from three files; few distinct field names with many tokens, the realistic skew), flushed as one or several blocks and in some cases merged. Every filter (field, token, field:token; block level and file level) is read back through ReadFileMetadata / ReadDataBlockBloomFilters, its distinct entry count n measured with the reference walker, and probed with N = max(2e5, 200/p) (cap 2e7) strings that were never inserted (disjoint alphabet). Oracle: observed rate <= 3p + 6*sqrt(3p(1-3p)/N) (3 = the maintainers' documented tolerance, 6 sigma = probe sampling error). evaluations = filters probed; non-trivial = filter with n >= 50; distinct = distinct (n, p, level, kind)",
+			Rule:        "case = one engine with BloomFalsePositiveRate p in {0.3, 0.1, 0.01, 0.001, 1e-4} ingesting rows built to carry a chosen number of distinct tokens (1 .. 50 000 quick, .. 300 000 thorough, plus volume cases of 600 000 - 1 500 000 distinct tokens in one file (one in the quick tier, one in 40 thorough), flushed at once or merged from three files; few distinct field names with many tokens, the realistic skew), flushed as one or several blocks and in some cases merged. Every fourth case has two engine configurations with different rates sharing the store (one writes, the other merges; blocks that are rebuilt and blocks that are copied end up side by side), and each filter is then probed against the rate its own metadata records, which must be one of the two configured rates. Every filter (field, token, field:token; block level and file level) is read back through ReadFileMetadata / ReadDataBlockBloomFilters, its distinct entry count n measured with the reference walker, and probed with N = max(2e5, 200/p) (cap 2e7) strings that were never inserted (disjoint alphabet). Oracle: observed rate <= 3p + 6*sqrt(3p(1-3p)/N) (3 = the maintainers' documented tolerance, 6 sigma = probe sampling error). evaluations = filters probed; non-trivial = filter with n >= 50; distinct = distinct (n, p, level, kind)",
 			Assumptions: []string{"tolerance 3x the configured rate as pinned by TestFalsePositiveRateWithinBudget", "probe strings start with a byte (0x01) no generator emits"},
-			Floors:      map[string]int64{"filters_probed": 60, "filters_n_ge_50": 20, "probes": 5000000, "volume_cases": 1}},
+			Floors:      map[string]int64{"filters_probed": 60, "filters_n_ge_50": 20, "probes": 5000000, "volume_cases": 1, "two_engine_cases": 3}},
 		Cases: func(t string) int { return nQueries(t, 24, 320) },
 		Run:   runC26,
 	})
@@ -92,9 +92,38 @@ func runC26(rc *RunCtx, i int) {
 		spec.Part = gen.PartFunc{Name: fmt.Sprintf("byKey:p(%d)", parts), Fn: func(row map[string]any) string { s, _ := row["p"].(string); return s }}
 		spec.Partition = spec.Part.Name
 	}
+	// every fourth case: two engine configurations share the store. The writer builds its filters
+	// at one rate; a second engine with another rate merges. Blocks the merge rebuilds must meet
+	// the merger's rate, blocks it copies keep the writer's filters and must keep the writer's
+	// recorded rate: each filter is probed against the rate its own metadata records.
+	twoEngines := i%4 == 1 && !volumeCase
+	mergerRate := p
+	if twoEngines {
+		if r.Chance(0.75) {
+			// the interesting direction: a loose writer and a tight merger
+			p = core.Pick(r, []float64{0.3, 0.1, 0.05})
+			mergerRate = core.Pick(r, []float64{0.001, 1e-4})
+		} else {
+			mergerRate = core.Pick(r, []float64{0.3, 0.05, 0.001, 1e-4})
+			for mergerRate == p {
+				mergerRate = core.Pick(r, []float64{0.3, 0.05, 0.001, 1e-4})
+			}
+		}
+		if n < 1000 {
+			n = core.Pick(r, []int{1000, 5000, 20000})
+		}
+		parts = 2
+		spec.Part = gen.PartFunc{Name: "byKey:p(shared+own)", Fn: func(row map[string]any) string { s, _ := row["p"].(string); return s }}
+		spec.Partition = spec.Part.Name
+		rc.Res.Count("two_engine_cases", 1)
+	}
+	spec.FPR = p
 	spec.MinMax = nil
 	spec.Compression = "snappy"
 	blocksWanted := core.Pick(r, []int{1, 1, 2, 4})
+	if twoEngines {
+		blocksWanted = core.Pick(r, []int{2, 3, 4})
+	}
 	if volumeCase {
 		blocksWanted = core.Pick(r, []int{1, 3})
 	}
@@ -103,6 +132,17 @@ func runC26(rc *RunCtx, i int) {
 	if _, err := w.AddEngine(spec); err != nil {
 		rc.Violate(i, "scenario-failed", "", err.Error(), nil)
 		return
+	}
+	mergeEngine := 0
+	if twoEngines {
+		spec2 := spec
+		spec2.FPR = mergerRate
+		mi, err := w.AddEngine(spec2)
+		if err != nil {
+			rc.Violate(i, "scenario-failed", "", err.Error(), nil)
+			return
+		}
+		mergeEngine = mi
 	}
 	// rows: up to 50 tokens per row, n distinct tokens in total, split over blocksWanted flushes
 	perRow := 50
@@ -138,7 +178,11 @@ func runC26(rc *RunCtx, i int) {
 			share -= k
 			vid++
 			row := map[string]any{"_vid": fmt.Sprintf("v%s_%d", caseID, vid), "t": sb.String()}
-			if parts > 1 {
+			if twoEngines {
+				// one partition every file has (its blocks get rebuilt together) and one that
+				// only this file has (its block is copied as it is)
+				row["p"] = core.Pick(r, []string{"shared", fmt.Sprintf("own%d", b)})
+			} else if parts > 1 {
 				row["p"] = fmt.Sprintf("part%d", vid%parts)
 			}
 			rec, err := w.Register(row, 0)
@@ -154,9 +198,9 @@ func runC26(rc *RunCtx, i int) {
 		}
 	}
 	merged := false
-	if blocksWanted > 1 && (r.Bool() || volumeCase) {
+	if blocksWanted > 1 && (r.Bool() || volumeCase || twoEngines) {
 		ctx, cancel := context.WithTimeout(context.Background(), 120*time.Second)
-		_, err := w.Eng[0].Merge(ctx)
+		_, err := w.Eng[mergeEngine].Merge(ctx)
 		cancel()
 		if err != nil {
 			rc.Violate(i, "scenario-failed", "", "merge: "+err.Error(), nil)
@@ -169,7 +213,7 @@ func runC26(rc *RunCtx, i int) {
 		rc.Violate(i, "scenario-failed", "", err.Error(), nil)
 		return
 	}
-	desc := map[string]any{"case": caseID, "configured_rate": p, "distinct_tokens_ingested": n, "flushes": blocksWanted, "merged": merged, "partitions_per_flush": parts}
+	desc := map[string]any{"case": caseID, "configured_rate": p, "two_engines": twoEngines, "merger_rate": mergerRate, "distinct_tokens_ingested": n, "flushes": blocksWanted, "merged": merged, "partitions_per_flush": parts}
 	probeOne := func(level, kind string, f *bloom.BloomFilter, entries int, rate float64) bool {
 		if f == nil {
 			rc.Violate(i, "filter-absent", "", level+" "+kind+" filter absent", desc)
@@ -228,15 +272,25 @@ func runC26(rc *RunCtx, i int) {
 				return
 			}
 			rate := b.Meta.BloomFalsePositiveRate
-			if rate != p {
-				rc.Violate(i, "block-rate-not-configured-rate", "", fmt.Sprintf("block metadata says its filters were built at %g, configured %g", rate, p), desc)
+			if rate != p && !(twoEngines && merged && rate == mergerRate) {
+				rc.Violate(i, "block-rate-not-configured-rate", "", fmt.Sprintf("block metadata says its filters were built at %g; the engines that wrote or merged it are configured for %g / %g", rate, p, mergerRate), desc)
 				return
 			}
-			if !probeOne("block", "field", bf.FieldBloomFilter, len(ent.Fields), p) || !probeOne("block", "token", bf.TokenBloomFilter, len(ent.Tokens), p) || !probeOne("block", "fieldtoken", bf.FieldTokenBloomFilter, len(ent.Pairs), p) {
+			if rate != p {
+				rc.Res.Count("blocks_at_merger_rate", 1)
+			} else if twoEngines && merged {
+				rc.Res.Count("blocks_kept_at_writer_rate", 1)
+			}
+			if !probeOne("block", "field", bf.FieldBloomFilter, len(ent.Fields), rate) || !probeOne("block", "token", bf.TokenBloomFilter, len(ent.Tokens), rate) || !probeOne("block", "fieldtoken", bf.FieldTokenBloomFilter, len(ent.Pairs), rate) {
 				return
 			}
 		}
-		if !probeOne("file", "field", md.BloomFilters.FieldBloomFilter, len(fileEnt.Fields), p) || !probeOne("file", "token", md.BloomFilters.TokenBloomFilter, len(fileEnt.Tokens), p) || !probeOne("file", "fieldtoken", md.BloomFilters.FieldTokenBloomFilter, len(fileEnt.Pairs), p) {
+		fileRate := md.BloomFalsePositiveRate
+		if fileRate != p && !(twoEngines && merged && fileRate == mergerRate) {
+			rc.Violate(i, "file-rate-not-configured-rate", "", fmt.Sprintf("file metadata says its filters were built at %g; configured %g / %g", fileRate, p, mergerRate), desc)
+			return
+		}
+		if !probeOne("file", "field", md.BloomFilters.FieldBloomFilter, len(fileEnt.Fields), fileRate) || !probeOne("file", "token", md.BloomFilters.TokenBloomFilter, len(fileEnt.Tokens), fileRate) || !probeOne("file", "fieldtoken", md.BloomFilters.FieldTokenBloomFilter, len(fileEnt.Pairs), fileRate) {
 			return
 		}
 	}
